@@ -349,12 +349,30 @@ func runC15(cs *Case, out func(string)) {
 	var maxLat time.Duration
 	var blockedOp string
 	bytesWritten := 0
+	var slowDiag *blockDiag
+	var slowMu sync.Mutex
+	nslow := 0
 	op := func(name string, f func() error) bool {
 		if blocked {
 			return false
 		}
 		t0 := time.Now()
 		var err error
+		// an operation that takes over a second is looked at while it waits (what holds it up?)
+		probeT := time.AfterFunc(time.Second, func() {
+			d := diagnoseBlock()
+			slowMu.Lock()
+			if slowDiag == nil || d.kind == "send" {
+				slowDiag = &d
+			}
+			slowMu.Unlock()
+		})
+		defer func() {
+			probeT.Stop()
+			if time.Since(t0) > time.Second {
+				nslow++
+			}
+		}()
 		if !withTimeout(bound, func() { err = f() }) {
 			blocked = true
 			blockedOp = name
@@ -471,7 +489,7 @@ func runC15(cs *Case, out func(string)) {
 				return t.Commit()
 			})
 		}
-		if probe == "writer-vs-poll" && time.Since(t0) > 4*time.Second {
+		if probe == "writer-vs-poll" && (time.Since(t0) > 4*time.Second || i >= 4000) {
 			break
 		}
 	}
@@ -486,12 +504,10 @@ func runC15(cs *Case, out func(string)) {
 			for _, c := range d.sendChains {
 				out("NOTE SENDCHAIN " + strings.Join(c, " "))
 			}
-			kfs["blocking_send_under_write_lock"] = true
 		case "inversion":
 			out(fmt.Sprintf("D op=%s inversion=known", blockedOp))
 			out("NOTE INVERSION " + d.fa + " " + d.fb)
 			out("NOTE CHAIN " + strings.Join(d.chain, " "))
-			kfs["primary_write_deadlock_with_replication"] = true
 		default:
 			out(fmt.Sprintf("U op=%s blocked for an unrecognised reason", blockedOp))
 			out("NOTE CHAIN " + strings.Join(d.chain, " "))
@@ -500,8 +516,26 @@ func runC15(cs *Case, out func(string)) {
 			blockedOp, boundS, nops, bytesWritten, probe, d.kind))
 	} else {
 		out(fmt.Sprintf("P ops=ok"))
+		// "complete in their normal time": the same workload without a misbehaving peer takes a few
+		// seconds; operations repeatedly held up for over a second by a peer are a failure too
+		if el := time.Since(t0); nslow >= 5 && el > 30*time.Second {
+			kind := "unknown"
+			slowMu.Lock()
+			defer slowMu.Unlock()
+			if slowDiag != nil {
+				kind = slowDiag.kind
+				out("NOTE CHAIN " + strings.Join(slowDiag.chain, " "))
+				for _, c := range slowDiag.sendChains {
+					out("NOTE SENDCHAIN " + strings.Join(c, " "))
+				}
+			}
+			fails = append(fails, fmt.Sprintf("the workload took %.0fs with %d operations over 1 s: the primary runs at the pace of the %s peer (%s)", el.Seconds(), nslow, probe, kind))
+			if kind == "send" {
+				out("B op=slow chain=known")
+			}
+		}
 	}
-	out(fmt.Sprintf("NOTE ops=%d max_latency_ms=%d bytes=%d elapsed=%.1fs", nops, maxLat.Milliseconds(), bytesWritten, time.Since(t0).Seconds()))
+	out(fmt.Sprintf("NOTE ops=%d max_latency_ms=%d slow_ops=%d bytes=%d elapsed=%.1fs", nops, maxLat.Milliseconds(), nslow, bytesWritten, time.Since(t0).Seconds()))
 
 	// eviction of the misbehaving peer
 	if expectEvict && !blocked {
@@ -527,9 +561,7 @@ func runC15(cs *Case, out func(string)) {
 			fails = append(fails, "primary put did not return while the misbehaving peer was to be evicted ("+d.kind+")")
 			switch d.kind {
 			case "send":
-				kfs["blocking_send_under_write_lock"] = true
 			case "inversion":
-				kfs["primary_write_deadlock_with_replication"] = true
 			}
 		} else {
 			b := 0
@@ -539,7 +571,6 @@ func runC15(cs *Case, out func(string)) {
 			out(fmt.Sprintf("E evicted=%d", b))
 			if !ev {
 				fails = append(fails, fmt.Sprintf("the %s peer is still in the reported topology %.1fs after it stopped", probe, limit.Seconds()))
-				kfs["stalled_replica_not_evicted"] = true
 			}
 		}
 	}
@@ -550,7 +581,9 @@ func runC15(cs *Case, out func(string)) {
 		op("put", func() error { return pe.Put([]byte("zz-final-2"), []byte("2")) })
 		conv := !blocked
 		if !blocked {
-			dl := time.Now().Add(40 * time.Second)
+			// the replica catches up one response (about 100 sequence numbers) per reconnect cycle
+			wait := 40*time.Second + time.Duration(nops/100)*1500*time.Millisecond
+			dl := time.Now().Add(wait)
 			for _, h := range healthy {
 				okh := false
 				for time.Now().Before(dl) {
@@ -573,7 +606,7 @@ func runC15(cs *Case, out func(string)) {
 		}
 		out(fmt.Sprintf("H converged=%d", b))
 		if !conv {
-			fails = append(fails, "a healthy replica did not reach the primary's state within 40s after the workload")
+			fails = append(fails, fmt.Sprintf("a healthy replica did not reach the primary's state within 40s + 1.5s per 100 operations (%d operations) after the workload", nops))
 		}
 	}
 	if len(fails) == 0 {
